@@ -239,7 +239,9 @@ def _w_pexp(res, p):
 
     def fn(e):
         cap.clear()
-        with ST.patched((OU, "get_pauliop_from_coeffs_and_labels", fake)):
+        import numpy
+
+        with ST.patched((OU, "get_pauliop_from_coeffs_and_labels", fake), (OU, "np", ST.NpProxy(numpy)), (OU, "float", ST.float_shadow), (OU, "complex", ST.complex_shadow)):
             out = OU.get_pauliop_from_matrix(M)
         if "c" not in cap:
             records.append(("nocall", None, None))
@@ -258,7 +260,9 @@ def _w_pexp(res, p):
                     if x != 0:
                         acc = acc + ci * (x.real if x.imag == 0 else complex(x))
                 d = ST.CV.lift(acc - M[r][c])
-                v, m = e.prove(z3.And(ST.zr_real(d.re) == 0, ST.zr_real(d.im) == 0))
+                dre, dim = ST.zr_real(d.re), ST.zr_real(d.im)
+                big = z3.RealVal("1/1000")
+                v, m = e.prove(z3.And(dre == 0, dim == 0), weak=z3.And(dre < big, -dre < big, dim < big, -dim < big))
                 records.append((v, m, (r, c)))
         return out
 
